@@ -662,8 +662,16 @@ def SUMPRODUCT(
 
     # Multiply position by position, whatever the shape of the arrays is
     # (concatenating the arrays themselves multiplies across their columns).
+    # Entries that are not numbers (blank cells, text) count as zero.
     sumproduct = pd.concat(
-        [pd.Series(array.flat) for array in arrays], axis=1)
+        [
+            pd.Series([
+                item if func_xltypes.Number.is_type(item) else 0
+                for item in array.flat
+            ])
+            for array in arrays
+        ],
+        axis=1)
     return sumproduct.prod(axis=1).sum()
 
 
